@@ -740,11 +740,28 @@ func (e *Eng) assignedIn(n ast.Node) *assignedSet {
 		case *ast.IndexExpr:
 			if id, ok := ast.Unparen(l.X).(*ast.Ident); ok {
 				if o := e.info.ObjectOf(id); o != nil {
-					if _, isMap := o.Type().Underlying().(*types.Map); isMap {
-						a.all = true
+					if mt, isMap := o.Type().Underlying().(*types.Map); isMap {
+						// a map write: forget the map heaps of that key/value shape
+						mkey, pkey := e.mapKeys(mt)
+						for _, cmp := range e.comps(mt.Elem()) {
+							a.elemTags[mkey+cmp] = true
+						}
+						a.elemTags[pkey] = true
+						a.elemTags["ML"] = true
 					} else {
 						a.rows[o] = true
 					}
+					return
+				}
+			}
+			if t := e.info.TypeOf(l.X); t != nil {
+				if mt, isMap := t.Underlying().(*types.Map); isMap {
+					mkey, pkey := e.mapKeys(mt)
+					for _, cmp := range e.comps(mt.Elem()) {
+						a.elemTags[mkey+cmp] = true
+					}
+					a.elemTags[pkey] = true
+					a.elemTags["ML"] = true
 					return
 				}
 			}
@@ -999,6 +1016,12 @@ func (e *Eng) havocSet(a *assignedSet, st *State) {
 	if a.all {
 		e.havocAll(st)
 	}
+	before := map[types.Object]Val{}
+	for o := range a.rows {
+		if cur, ok := st.vars[o]; ok {
+			before[o] = cur
+		}
+	}
 	for o := range a.vars {
 		vo, ok := o.(*types.Var)
 		if !ok {
@@ -1041,13 +1064,30 @@ func (e *Eng) havocSet(a *assignedSet, st *State) {
 				continue
 			}
 			if a.vars[o] && v.K == KSlice {
-				// the slice variable itself is reassigned in the loop: its row is unknown
+				// the slice variable itself is reassigned in the loop
 				var et types.Type = types.Typ[types.Uint8]
 				if s, ok := o.Type().Underlying().(*types.Slice); ok {
 					et = s.Elem()
 				}
+				old, haveOld := before[o]
 				for _, cmp := range e.comps(et) {
-					e.heapHavoc(st, e.elemBase(et)+cmp)
+					key := e.elemBase(et) + cmp
+					if e.owned[o] && haveOld {
+						// an owned slice (nil, make, append to itself): the loop can only write the
+						// array it had on entry or arrays allocated inside the loop; every other
+						// array that existed before the loop keeps its contents
+						oldH := e.heapGet(st, key)
+						e.heapHavoc(st, key)
+						newH := st.heap[key]
+						pre := []string{"(>= r 0)"}
+						for _, al := range st.allocs {
+							pre = append(pre, "(= r "+al+")")
+						}
+						st.assume(fmt.Sprintf("(forall ((r Int)) (! (=> (and (not (= r %s)) (or %s)) (= (select %s r) (select %s r))) :pattern ((select %s r))))",
+							old.Ref, strings.Join(pre, " "), newH, oldH, newH))
+						continue
+					}
+					e.heapHavoc(st, key)
 				}
 				continue
 			}
@@ -1062,6 +1102,11 @@ func (e *Eng) havocSet(a *assignedSet, st *State) {
 	for g := range a.ghosts {
 		if v, ok := st.ghost[g]; ok {
 			st.ghost[g] = e.freshGhost(g, v, st)
+		}
+	}
+	if !a.all {
+		for _, k := range sortStrings(a.elemTags) {
+			e.heapHavoc(st, k)
 		}
 	}
 }
